@@ -50,7 +50,7 @@ type errException struct {
 }
 
 var c09Exceptions = []errException{
-	{caller: "internal/kessoku.Generate", callee: genPkg + ".generateInjectorDecl",
+	{caller: "", callee: genPkg + ".generateInjectorDecl", // wherever it is called from: the premise is about the callee
 		reason: "generateInjectorDecl can only fail through createASTTypeExpr's default branch (Tuple/TypeParam/Union), which no provider result or argument type can be; no input reaches it, so there is no behaviour to repair. Premise checked: every error return below it originates in createASTTypeExpr."},
 }
 
@@ -96,7 +96,7 @@ func propagationRule(c *Ctx, rule string, fns []*ssa.Function, inScope func(call
 			exc := false
 			for _, e := range exceptions {
 				ecal := resolveRole(c, genPkg, strings.TrimPrefix(e.callee, genPkg+"."))
-				if e.caller == fnName(fn) && (e.callee == callee.String() || (ecal != nil && ecal == callee)) {
+				if (e.caller == "" || e.caller == fnName(fn)) && (e.callee == callee.String() || (ecal != nil && ecal == callee)) {
 					exc = true
 					c.ok(rule, desc+" [table exception: "+e.reason+"]", "exception table")
 					c.Notes = append(c.Notes, "exception "+cons+": "+e.reason)
